@@ -79,8 +79,8 @@ ExclusionLaw == \A x \in Entries(P) :
 Filters(T) == {[kind |-> k, name |-> m] : k \in {"named", "sub"}, m \in T}
 Shape == [verb : Verbs, dir : Dirs, exc : BOOLEAN]
 AboveLimit(r, n) == \A f \in r.subs \cup r.objs : IF f.kind = "named" THEN Len(f.name) <= n ELSE Len(f.name) < n
-QuotientVerdict == \A k \in 1..2 :
-    LET c == Cfg(R, {}, k, FALSE)
+QuotientVerdict == \A k \in 0..2 :          \* level_limit k, encoded as k + 1
+    LET c == Cfg(R, {}, k + 1, FALSE)
         A == Arch(Cfg(R, {}, 0, FALSE))
         Q == Quotient(A, KeepLen(c))
         FA == Filters(Q.modules) IN
@@ -89,8 +89,8 @@ QuotientVerdict == \A k \in 1..2 :
         (Strict(r) /\ AboveLimit(r, KeepLen(c)))
            => Pass(Den(A.modules, {s, o}), A.imports, r) = Pass(Den(Q.modules, {s, o}), Q.imports, r)
 \* ... and the restriction to rules above the limit is needed (vacuity guard, expected to be violated somewhere):
-QuotientVerdictUnrestricted == \A k \in 1..2 :
-    LET c == Cfg(R, {}, k, FALSE)
+QuotientVerdictUnrestricted == \A k \in 0..2 :
+    LET c == Cfg(R, {}, k + 1, FALSE)
         A == Arch(Cfg(R, {}, 0, FALSE))
         Q == Quotient(A, KeepLen(c))
         FA == Filters(A.modules) IN
